@@ -205,11 +205,11 @@ def evidence(ctx, p, K):
         mm = inv.methods.get(name)
         dels = [c_ for c_ in mm.calls() if norm_text(c_.func) in ("np.delete", "numpy.delete")]
         axes = sorted(norm_text(c_.args[2]) if len(c_.args) > 2 else norm_text(wire.kw(c_).get("axis")) for c_ in dels)
-        idx = {norm_text(c_.args[1]) for c_ in dels}
+        idx = {norm_text(wire.inline_locals(mm, c_.args[1])) for c_ in dels}
         ctx.ob(rule, mm.key, axes == ["0", "1"] and idx == {"self.no_regularization_index_list"}, where=mm, node=mm.node, construct=f"axes {axes} indices {sorted(idx)}", message="the reduced matrix must drop the no-regularization indices along both axes")
     mm = inv.methods.get("reconstruction_reduced")
     dels = [c_ for c_ in mm.calls() if norm_text(c_.func) in ("np.delete", "numpy.delete")]
-    ok = len(dels) == 1 and norm_text(dels[0].args[0]) == "self.reconstruction" and norm_text(dels[0].args[1]) == "self.no_regularization_index_list"
+    ok = len(dels) == 1 and norm_text(wire.inline_locals(mm, dels[0].args[0])) == "self.reconstruction" and norm_text(wire.inline_locals(mm, dels[0].args[1])) == "self.no_regularization_index_list"
     ctx.ob(rule, mm.key, ok, where=mm, node=mm.node, construct=norm_text(dels[0]) if dels else "", message="the reduced reconstruction must drop the no-regularization entries")
 
 
